@@ -470,6 +470,7 @@ def names_family(twice=False):
         ("nm_end", ["fa", "faend", "endfa"]),
         ("nm_underscore_prefix", ["update", "update_display", "display"]),
         ("nm_underscore_chain", ["aa_bb", "bb_cc", "aa_bb_cc"]),
+        ("nm_underscore_head", ["read", "read_value", "other_thing"]),
     ]
     out = []
     for nm, (fa, fb, fc) in sets:
